@@ -146,6 +146,9 @@ def pow(a,b):
     def deriv(r):
       ar = a(r)
       db = deriv_b(r)
+      if ar == 0 and db == 0:
+        # (a vanishing base under a constant exponent n, e.g. (r - c)**2 at r = c: n*a**(n-1)*a'; the general expression divides by the base)
+        return b(r) * ar**(b(r) - 1.0) * deriv_a(r)
       # (a constant exponent contributes nothing through log(a): a(r)**n is differentiable where a(r) < 0 too)
       return potential(r) * ((db * math.log(ar) if db != 0 else 0.0) + b(r) * deriv_a(r)/ar)
     potential.deriv = deriv
@@ -162,6 +165,10 @@ def pow(a,b):
         db = deriv_b(r)
         d2a = deriv2_a(r)
         d2b = deriv2_b(r)
+        if ar == 0 and db == 0 and d2b == 0:
+          # (vanishing base, constant exponent n: n*(n-1)*a**(n-2)*a'**2 + n*a**(n-1)*a'')
+          bm1 = br - 1.0
+          return (bm1 * (br * ar**(br - 2.0) * da * da) if bm1 != 0 else 0.0) + br * ar**(br - 1.0) * d2a
 
         # value = (deriv_b(r)*log(a(r)) + b(r)*deriv_a(r)/a(r))*deriv(r) + (math.log(a(r))*deriv2_b(r) + b(r)*deriv2_a(r)/a(r) + deriv_a(r)*deriv2_b(r)/a(r) + deriv_b(r)*deriv2_a(r)/a(r) - b(r)*deriv_a(r)*deriv2_a(r)/a(r)**2)*potential(r)
         dblog = db*math.log(ar) if db != 0 else 0.0
